@@ -29,6 +29,7 @@ TRUSTED_BASE = [
     "hand-written Gallina model of the modelled source (coq/theories); tied to /repo by this run's correspondence cases",
     "correspondence harness (harness/*.py): generators, observation canonicalisation, Gallina literal printer, Python oracles",
     "third party, tested not proved: rlp.decode(encode_raw x)=x on node-shaped items, eth_hash keccak = Gallina keccak256, CPython dict/sortedcontainers semantics",
+    "source fingerprint (tools/fingerprint.py, harness/source_fingerprint.json): only decides how MUCH is sampled (extra seeds when the modelled source text changed); never a verdict",
 ]
 
 # ---------------------------------------------------------------------------
